@@ -302,6 +302,16 @@ theorem shared_data_exports_init (isfileInit : Str → Bool) (specs : List (Str 
   refine List.mem_map.mpr ⟨(k, v), h, ?_⟩
   cases v <;> rfl
 
+/-- two file-system states: a `str` value that names nothing when the middleware is built gets the
+directory loader; once it is a regular file it is served under its exact key (`loader(None)`, the
+value itself - the export root), not below it (stream static-files, export kind `late:`) -/
+example : sharedData (fun p => p == "/srv/late".toList) (fun _ => true)
+    (mkExports (fun _ => false) [("/static".toList, .path "/srv/late".toList)]) "/static".toList
+    = some "/srv/late".toList := by decide
+example : sharedData (fun p => p == "/srv/late".toList) (fun _ => true)
+    (mkExports (fun _ => false) [("/static".toList, .path "/srv/late".toList)]) "/static/x".toList
+    = none := by decide
+
 /-- **`_root_path`, when absolute or empty** (what Flask passes is `app.root_path`, an absolute
 path): the file `send_file` opens is the file that was tested with `os.path.isfile`, it is
 `join(_root_path, safe_join(directory, path))`, and it lies inside `join(_root_path, directory)`;
